@@ -9,6 +9,8 @@
 # drop: value discarded).  One output line per case:  "<idx> OK <class>"  or  "<idx> DIFF <route> <ref> <got>".
 
 (def LOG @[])
+# run by every operator method after it logged its call: the `var-clobber` route lets it assign to the caller's operand variables
+(var HOOK nil)
 (var ARGS [])
 (var tab-counter 0)
 
@@ -85,6 +87,7 @@
              (fn [a b]
                (def e (string name "(" (canon a) "," (canon b) ")"))
                (array/push LOG e)
+               (when HOOK (HOOK))
                (mk-tab e only))))))
   (when (or (nil? only) (index-of "~" only))
     (put t (keyword "~") (fn [a] (def e (string "~(" (canon a) ")")) (array/push LOG e) (mk-tab e only))))
@@ -134,6 +137,7 @@
 (defn outcome [form args &opt operands]
   "compile `form` (a (fn ...) expression), call the resulting function on args; post = operands after the call"
   (array/clear LOG)
+  (set HOOK nil)
   (def c (compile form ENV :c15))
   (def trace
     (if (function? c)
@@ -236,6 +240,16 @@
                  (tuple 'set 'x (tuple f ;(seq [i :range [0 n]] (if (= i k) 'x (in ps i)))))
                  'x)
            args)))
+  # operands held in variables that an operator method (janet code, run by the VM in the middle of the emitted chain) assigns to: a call
+  # reads all its arguments before the function runs, so the assignments must not be visible to the later steps of the chain
+  (when (> n 0)
+    (add "var-clobber"
+         (mkfn ps ;(seq [i :range [0 n]] (tuple 'var (symbol "x" i) (in ps i)))
+               (tuple 'set 'HOOK (tuple 'fn [] ;(seq [i :range [0 n]] (tuple 'set (symbol "x" i) :clobbered))))
+               (tuple 'def 'r (tuple f ;(seq [i :range [0 n]] (symbol "x" i))))
+               '(set HOOK nil)
+               'r)
+         args))
   # conditions
   (defn nilc [args] (seq [i :range [0 n]] (if (nil? (in args i)) nil (in ps i))))
   (add "if" (mkfn ps (tuple 'if (tuple f ;ps) :T :F)) args truthy-xform)
